@@ -3,7 +3,7 @@
    removed, escape-aware label walk) and dba5ede (the refresh parses downloads only). *)
 From Coq Require Import Permutation.
 From Sdns Require Import Common.Base Gen.C18 C18.Model C18.Spec
-  C18.Proofs_match C18.Proofs_disk C18.Proofs_reload C18.Proofs_final C18.Proofs_equiv C18.Proofs_refresh.
+  C18.Proofs_match C18.Proofs_disk C18.Proofs_reload C18.Proofs_final C18.Proofs_equiv C18.Proofs_refresh C18.Proofs_walk C18.Proofs_examples.
 Open Scope N_scope.
 
 (* Matching is exact on whole labels, case-insensitive, whitelist first: for every
@@ -215,3 +215,31 @@ Theorem io_error_steps_cover : forall d s,
   (forall k j, (length (persist_steps s) <= k)%nat -> fail_at d s k j = mk_disk (Some (snap_bytes s)) (d_temps d)).
 Proof. exact io_error_steps_cover_lemma. Qed.
 Print Assumptions io_error_steps_cover.
+
+(* the label walk is tied to the source by translation: Gen.C18.go_nextDot is srcgen's
+   rendering of blocklist.go's nextDot (loop, switch, the extra i++ after a backslash);
+   Proofs_walk.gen_nextDot shows it equal to Model.next_dot for every string, and here:
+   the suffix list over which exists_spec is proved is produced by exactly the loop of
+   Exists / matchHierarchy — offset += nextDot(key[offset:]) + 1; suffix = key[offset:] *)
+Theorem walk_follows_next_dot : forall s : str,
+  (next_dot s = (-1)%Z /\ dot_suffixes s = []) \/
+  ((0 <= next_dot s < Z.of_nat (length s))%Z /\
+   dot_suffixes s = skipn (Z.to_nat (next_dot s + 1)) s :: dot_suffixes (skipn (Z.to_nat (next_dot s + 1)) s)).
+Proof. exact walk_follows_next_dot_lemma. Qed.
+Print Assumptions walk_follows_next_dot.
+
+(* finding blocklist-entry-spelling (KNOWN_FINDINGS.txt): exists_spec holds for lists whose
+   entries are spelled the way the wire decoder spells names (state_of renders them with
+   Spec.present).  For an entry spelled by hand the statement fails: "a@b.test." and the
+   query name for the labels [a@b; test] are the same name, Exists does not find it; and
+   a whitelist entry spelled that way does not exempt the name. *)
+Theorem entry_spelling_refuted :
+  name_of sp_entry = sp_name /\ name_of (present sp_name) = sp_name /\
+  present sp_name <> sp_entry /\
+  spec_blocked_b [name_of sp_entry] [] [] sp_name = true /\
+  bl_exists (mk_bl [sp_entry] [] []) (present sp_name) = false /\
+  spec_blocked_b [] [[[116;101;115;116]]] [name_of sp_entry] sp_name = false /\
+  bl_exists (mk_bl [] [[116;101;115;116;46]] [sp_entry]) (present sp_name) = true /\
+  bl_exists (mk_bl [present sp_name] [] []) (present sp_name) = true.
+Proof. exact entry_spelling_refuted_lemma. Qed.
+Print Assumptions entry_spelling_refuted.
